@@ -110,7 +110,7 @@ func TestCorpus(t *testing.T) {
 				k = k[:i]
 			}
 			unsupKinds[k]++
-			if len(r.extProbs) > 0 && !isExpected {
+			if len(r.extProbs) > 0 && !isExpected && len(r.f.Objects) > 0 {
 				bad++
 				t.Errorf("%s: (unsupported) extents are inconsistent: %s", rel, strings.Join(head(r.extProbs, 3), " | "))
 			}
